@@ -20,29 +20,9 @@
 (* CharStrGuard selects whether read_char_string checks the offset before  *)
 (* reading the length byte (FALSE = the code before the repair).           *)
 (***************************************************************************)
-EXTENDS Naturals, Sequences, FiniteSets, Wire
+EXTENDS Naturals, Sequences, FiniteSets, Wire, DecodeMechUtf8
 
 CONSTANTS PtrRule, CharStrGuard
-
-(* ---------- UTF-8 validity exactly as core::str::from_utf8 ------------- *)
-Cont(x) == x >= 128 /\ x <= 191
-RECURSIVE Utf8From(_, _)
-Utf8From(s, i) ==                      \* i is a 1-based index into s
-  IF i > Len(s) THEN TRUE
-  ELSE LET c == s[i]
-           has(n) == i + n <= Len(s)
-       IN
-       IF c <= 127 THEN Utf8From(s, i + 1)
-       ELSE IF c >= 194 /\ c <= 223 THEN has(1) /\ Cont(s[i+1]) /\ Utf8From(s, i + 2)
-       ELSE IF c = 224 THEN has(2) /\ s[i+1] >= 160 /\ s[i+1] <= 191 /\ Cont(s[i+2]) /\ Utf8From(s, i + 3)
-       ELSE IF (c >= 225 /\ c <= 236) \/ c = 238 \/ c = 239
-            THEN has(2) /\ Cont(s[i+1]) /\ Cont(s[i+2]) /\ Utf8From(s, i + 3)
-       ELSE IF c = 237 THEN has(2) /\ s[i+1] >= 128 /\ s[i+1] <= 159 /\ Cont(s[i+2]) /\ Utf8From(s, i + 3)
-       ELSE IF c = 240 THEN has(3) /\ s[i+1] >= 144 /\ s[i+1] <= 191 /\ Cont(s[i+2]) /\ Cont(s[i+3]) /\ Utf8From(s, i + 4)
-       ELSE IF c >= 241 /\ c <= 243 THEN has(3) /\ Cont(s[i+1]) /\ Cont(s[i+2]) /\ Cont(s[i+3]) /\ Utf8From(s, i + 4)
-       ELSE IF c = 244 THEN has(3) /\ s[i+1] >= 128 /\ s[i+1] <= 143 /\ Cont(s[i+2]) /\ Cont(s[i+3]) /\ Utf8From(s, i + 4)
-       ELSE FALSE
-Utf8Ok(s) == Utf8From(s, 1)
 
 (* ------------------------------ read_name ------------------------------ *)
 (* s.off   : cursor of the walk         s.ret : value left in self.offset   *)
